@@ -31,6 +31,7 @@ func runC09(p *Program, r *Report) {
 	checkLoopAllocs(p, r)
 	checkLoopProgress(p, r)
 	checkNoRecursion(p, r)
+	checkCounterWrap(p, r)
 	r.Floor("C09.P1", 7)
 	r.Floor("C09.A1", 3)
 	r.Floor("C09.L1", 12)
@@ -1812,4 +1813,105 @@ func descendsFixedList(p *Program, f *ssa.Function) (int64, bool) {
 		return 0, false
 	}
 	return bound, true
+}
+
+// ---------------------------------------------------------------------------
+// L4: a counting loop must be able to leave. `for i := byte(1); i <= n; i++` with
+// n a byte never ends when n is 255: i wraps to 0 before it can exceed n (seed
+// C09-P: the largest legal chunk count hangs the loader and grows a buffer
+// without bound). Likewise an unsigned counter tested with `i >= 0`. Judged on
+// every loop of the parsing packages whose header compares an integer phi that
+// steps by one with <= (resp. >=): the bound must be a constant below the
+// largest value of the counter's type (resp. above the smallest), or the counter
+// must be wider than the bound's source.
+func checkCounterWrap(p *Program, r *Report) {
+	rule := "C09.L4"
+	n := 0
+	for _, f := range p.SrcFuncs() {
+		if !inMeta(f) {
+			continue
+		}
+		for _, b := range f.Blocks {
+			if !isLoopHeader(b) || len(b.Instrs) == 0 {
+				continue
+			}
+			ifi, ok := b.Instrs[len(b.Instrs)-1].(*ssa.If)
+			if !ok {
+				continue
+			}
+			bo, ok := ifi.Cond.(*ssa.BinOp)
+			if !ok {
+				continue
+			}
+			op, ctr, bound := bo.Op, bo.X, bo.Y
+			if _, isPhi := stripConv(ctr).(*ssa.Phi); !isPhi {
+				// n >= i  ≡  i <= n
+				ctr, bound = bo.Y, bo.X
+				switch op {
+				case token.LEQ:
+					op = token.GEQ
+				case token.GEQ:
+					op = token.LEQ
+				default:
+				}
+			}
+			ph, isPhi := stripConv(ctr).(*ssa.Phi)
+			if !isPhi || ph.Block() != b || (op != token.LEQ && op != token.GEQ) {
+				continue
+			}
+			iv := affinePhi(ph)
+			if iv == nil {
+				continue
+			}
+			w, signed, isInt := intTypeInfo(ph.Type(), 64)
+			if !isInt {
+				continue
+			}
+			n++
+			key := fmt.Sprintf("%s loop at %s", shortFn(f), p.InstrPos(ifi))
+			up := !iv.Down
+			good, why := true, ""
+			switch {
+			case op == token.LEQ && up:
+				// leaves only when i > bound: impossible if bound can be the type's maximum
+				max := new(big.Int).Sub(new(big.Int).Lsh(big.NewInt(1), uint(w)), big.NewInt(1))
+				if signed {
+					max = new(big.Int).Sub(new(big.Int).Lsh(big.NewInt(1), uint(w-1)), big.NewInt(1))
+				}
+				if c, isC := constInt(bound); isC {
+					good = big.NewInt(c).Cmp(max) < 0
+				} else {
+					bw, _, bInt := intTypeInfo(stripConv(bound).Type(), 64)
+					good = bInt && bw < w
+				}
+				if !good {
+					why = fmt.Sprintf("the %d-bit counter is compared with <= against a bound that can be the largest value of its type: incrementing wraps to 0 and the loop never ends", w)
+				}
+			case op == token.GEQ && !up:
+				if c, isC := constInt(bound); isC {
+					good = signed || c > 0
+				} else {
+					good = signed
+				}
+				if !good {
+					why = "an unsigned counter counting down is compared with >= against a bound that can be 0: decrementing wraps to the maximum and the loop never ends"
+				}
+			}
+			r.Check(good, rule, key, p.InstrPos(ifi), "the counter can pass its bound without wrapping", why)
+		}
+	}
+	r.Check(true, rule, "counting loops can terminate", "-", fmt.Sprintf("%d loops with an inclusive bound examined", n), "")
+}
+
+func stripConv(v ssa.Value) ssa.Value {
+	for {
+		switch x := v.(type) {
+		case *ssa.Convert:
+			v = x.X
+		case *ssa.ChangeType:
+			v = x.X
+		default:
+			return v
+		}
+	}
 }
